@@ -91,6 +91,18 @@ async def _case(loop, data, login_first, end_kind):
         # the bystander is undisturbed
         c1, _, _, _ = await W.run_line(wd, o, b"PWD")
         out["o_pwd"] = (c1, o.replies[-1][1] if o.replies else None)
+        # ... and can still look at the tree the garbage session may have touched
+        out["o_list"] = None
+        if not o.eof:
+            await W.run_line(wd, o, b"EPSV")
+            await W.data_connect(wd, o)
+            cl, _, _, _ = await W.run_line(wd, o, b"LIST /")
+            cm = []
+            if not o.eof:
+                await W.run_line(wd, o, b"EPSV")
+                await W.data_connect(wd, o)
+                cm, _, _, _ = await W.run_line(wd, o, b"MLSD /")
+            out["o_list"] = (cl, cm, o.eof)
         # a new session is admitted: G's slot is back
         n = await wd.raw_client()
         out["n_greeting"] = [int(c) for c, _ in n.replies]
@@ -177,6 +189,8 @@ def run(ctx, compare=True):
         res.distinct.add(("server", data[:64], job[1]))
         if o["o_pwd"][0] != [257] or '"/d"' not in (o["o_pwd"][1] or [""])[0]:
             res.oracle_failures.append({"input": inp, "what": "the bystander session was disturbed: PWD -> %r" % (o["o_pwd"],), "signature": "C19:server:other-session-disturbed"})
+        elif o.get("o_list") is not None and (o["o_list"][0] != [150, 226] or o["o_list"][1] != [150, 200] or o["o_list"][2]):
+            res.oracle_failures.append({"input": inp, "what": "after the garbage session the bystander cannot list the root any more: LIST -> %r, MLSD -> %r, session ended: %r" % o["o_list"], "signature": "C19:server:other-session-disturbed"})
         elif o["n_greeting"] != [220] or o["n_user"] != [230]:
             res.oracle_failures.append({"input": inp, "what": "after the garbage session's peer disconnected a new session is not admitted (greeting %r, USER %r): its slot was not released" % (o["n_greeting"], o["n_user"]), "signature": "C19:server:slot-not-released"})
         elif o["connections_now"] != 2:
@@ -235,9 +249,11 @@ def replay(inp):
     job = (bytes.fromhex(hx), bool(inp.get("login_first")), inp.get("end", "close"), int(inp.get("task_salt", 0)))
     o = _job(job)
     print("replay input:", inp)
-    print("implementation:", o if isinstance(o, str) else {k: o[k] for k in ("g_codes", "g_eof", "o_pwd", "n_greeting", "n_user", "connections_now", "ledger")})
+    print("implementation:", o if isinstance(o, str) else {k: o.get(k) for k in ("g_codes", "g_eof", "o_pwd", "o_list", "n_greeting", "n_user", "connections_now", "ledger")})
     if isinstance(o, str):
         return True
     if o["o_pwd"][0] != [257] or o["n_greeting"] != [220] or o["n_user"] != [230] or o["connections_now"] != 2:
+        return True
+    if o.get("o_list") is not None and (o["o_list"][0] != [150, 226] or o["o_list"][1] != [150, 200] or o["o_list"][2]):
         return True
     return bool(SC.ledger_clean(o["ledger"], {"maximum_connections": 2, "data_ports": None}))
